@@ -34,9 +34,10 @@ def fuzz_streams(prop, tier, seed, ctx, res, mod):
         if vt is None:
             res.count(f"fuzz_{t}:unavailable (no python3-vt)")
             continue
-        out = os.path.join(ctx.fresh_dir(), "diff.json")
+        work = ctx.fresh_dir()
+        out = os.path.join(work, "diff.json")
         env = dict(os.environ, PYTHONPATH=os.path.join(common.REPO, "src"), MOTO_REPO=common.REPO)
-        r = subprocess.run([vt, os.path.join(common.VERIF, "tools", "fuzz_diff.py"), t, str(budget), "--seed", str(seed), "--out", out],
+        r = subprocess.run([vt, os.path.join(common.VERIF, "tools", "fuzz_diff.py"), t, str(budget), "--seed", str(seed), "--out", out, "--work", os.path.join(work, "w")],
                            capture_output=True, text=True, env=env, timeout=budget + 300)
         n = 0
         for line in r.stderr.splitlines():
